@@ -1,6 +1,7 @@
 (* C20 — property theorems only.  Each is closed by [exact] of a lemma of C20/Proofs.v. *)
 From Coq Require Import List String NArith Bool.
 From Verif Require Import Base.Util Writer.Model C20.Check C20.Proofs.
+From Verif Require C08.Check C08.Proofs.
 Import ListNotations.
 Local Open Scope string_scope.
 Local Open Scope list_scope.
@@ -40,6 +41,13 @@ Theorem C20_partition_list_filtered : forall e s db coll ps ts s1 c1 kept,
   /\ forall p, In p ps -> ~ In p kept -> exists s' , snd (wait_obj e s' db coll p ts) = Skip.
 Proof. exact partition_list_filtered. Qed.
 Print Assumptions C20_partition_list_filtered.
+
+(* ... and (the statement shared with C08) a partition recorded dropped at or after the operation's time is never
+   named in a load / release request: the second half of check_C20 accepts every model run *)
+Theorem C20_dropped_partitions_not_named : forall e s ops,
+  C08.Check.check_steps e s ops (run_obs e s ops) = true.
+Proof. exact C08.Proofs.model_passes_checker. Qed.
+Print Assumptions C20_dropped_partitions_not_named.
 
 (* unsupported or ambiguous packs are rejected, nothing is applied, tables untouched *)
 Theorem C20_malformed_rejected : forall e s f,
